@@ -6,6 +6,21 @@ use proptest::prelude::*;
 
 pub fn resp_datum() -> impl Strategy<Value = RespDatum> {
     prop_oneof![
+        // a device-defined composite type (parts joined with Formatter::data_separator) and an Error as data
+        14 => simple_datum(),
+        1 => proptest::collection::vec(prop_oneof![6 => simple_datum(), 1 => err_spec().prop_map(RespDatum::Err)], 1..5).prop_map(|mut v| {
+            v.retain(|d| d.is_simple());
+            if v.is_empty() {
+                v.push(RespDatum::U8(0));
+            }
+            RespDatum::Composite(v)
+        }),
+        1 => err_spec().prop_map(RespDatum::Err),
+    ]
+}
+
+fn simple_datum() -> impl Strategy<Value = RespDatum> {
+    prop_oneof![
         3 => prop_oneof![any::<i32>(), -10i32..10, Just(i32::MIN), Just(i32::MAX)].prop_map(RespDatum::I32),
         1 => any::<u8>().prop_map(RespDatum::U8),
         1 => prop_oneof![any::<u64>(), Just(u64::MAX)].prop_map(RespDatum::U64),
